@@ -8,7 +8,7 @@
 VERIF="$(cd "$(dirname "$0")/.." && pwd)"
 cd "$VERIF/sim" || exit 2
 seeds=${1:-200}; runs=${2:-3000}
-cargo build --offline --profile sim >/dev/null 2>&1 || { echo "build failed"; exit 2; }
+CARGO_TARGET_DIR="$VERIF/sim/target" cargo build --offline --profile sim >/dev/null 2>&1 || { echo "build failed"; exit 2; }
 tmp=$(mktemp -d); bad=0; procs=0
 for id in C12 C13; do
   s=1
